@@ -190,14 +190,30 @@ type SCTPParameter struct {
 	Value        []byte
 }
 
-func decodeSCTPParameter(data []byte) SCTPParameter {
+// decodeSCTPParameter decodes the parameter at the start of data.  It returns
+// the parameter and the data following it (after any padding).
+func decodeSCTPParameter(data []byte) (SCTPParameter, []byte, error) {
+	if len(data) < 4 {
+		return SCTPParameter{}, nil, errors.New("invalid SCTP parameter, less than 4 bytes")
+	}
 	length := binary.BigEndian.Uint16(data[2:4])
-	return SCTPParameter{
+	if length < 4 {
+		return SCTPParameter{}, nil, errors.New("invalid SCTP parameter length")
+	}
+	if len(data) < int(length) {
+		return SCTPParameter{}, nil, errors.New("SCTP parameter length exceeds remaining chunk length")
+	}
+	param := SCTPParameter{
 		Type:         binary.BigEndian.Uint16(data[0:2]),
 		Length:       length,
 		Value:        data[4:length],
 		ActualLength: roundUpToNearest4(int(length)),
 	}
+	// The padding after the last parameter is not counted in the chunk length.
+	if len(data) < param.ActualLength {
+		return param, nil, nil
+	}
+	return param, data[param.ActualLength:], nil
 }
 
 func (p SCTPParameter) Bytes() []byte {
@@ -435,9 +451,12 @@ func decodeSCTPInit(data []byte, p gopacket.PacketBuilder) error {
 	}
 	paramData := data[20:sc.ActualLength]
 	for len(paramData) > 0 {
-		p := SCTPInitParameter(decodeSCTPParameter(paramData))
-		paramData = paramData[p.ActualLength:]
-		sc.Parameters = append(sc.Parameters, p)
+		var param SCTPParameter
+		param, paramData, err = decodeSCTPParameter(paramData)
+		if err != nil {
+			return err
+		}
+		sc.Parameters = append(sc.Parameters, SCTPInitParameter(param))
 	}
 	p.AddLayer(sc)
 	return p.NextDecoder(gopacket.DecodeFunc(decodeWithSCTPChunkTypePrefix))
@@ -575,9 +594,12 @@ func decodeSCTPHeartbeat(data []byte, p gopacket.PacketBuilder) error {
 	}
 	paramData := data[4:sc.Length]
 	for len(paramData) > 0 {
-		p := SCTPHeartbeatParameter(decodeSCTPParameter(paramData))
-		paramData = paramData[p.ActualLength:]
-		sc.Parameters = append(sc.Parameters, p)
+		var param SCTPParameter
+		param, paramData, err = decodeSCTPParameter(paramData)
+		if err != nil {
+			return err
+		}
+		sc.Parameters = append(sc.Parameters, SCTPHeartbeatParameter(param))
 	}
 	p.AddLayer(sc)
 	return p.NextDecoder(gopacket.DecodeFunc(decodeWithSCTPChunkTypePrefix))
@@ -631,9 +653,12 @@ func decodeSCTPError(data []byte, p gopacket.PacketBuilder) error {
 	}
 	paramData := data[4:sc.Length]
 	for len(paramData) > 0 {
-		p := SCTPErrorParameter(decodeSCTPParameter(paramData))
-		paramData = paramData[p.ActualLength:]
-		sc.Parameters = append(sc.Parameters, p)
+		var param SCTPParameter
+		param, paramData, err = decodeSCTPParameter(paramData)
+		if err != nil {
+			return err
+		}
+		sc.Parameters = append(sc.Parameters, SCTPErrorParameter(param))
 	}
 	p.AddLayer(sc)
 	return p.NextDecoder(gopacket.DecodeFunc(decodeWithSCTPChunkTypePrefix))
